@@ -56,7 +56,11 @@ func (r *RMRemoting) BranchRegister(param BranchRegisterParam) (int64, error) {
 		ApplicationData: []byte(param.ApplicationData),
 	}
 	resp, err := getty.GetGettyRemotingClient().SendSyncRequest(request)
-	if err != nil || resp == nil {
+	if err == nil && resp == nil {
+		// an answer without a body (it could not be decoded) is no registration
+		err = fmt.Errorf("no response to the branch registration, xid %s", param.Xid)
+	}
+	if err != nil {
 		log.Errorf("BranchRegister error: %v, res %v", err.Error(), resp)
 		return 0, err
 	}
